@@ -61,7 +61,7 @@ def _configs(tier):
                     {"name": "SlewDistanceMinimization", "parameters": {}}]
 
     def add(name, n_sens, n_tgt, decision, start=START, steps=n_steps, dparams=None, cfg_over=None, reward=None,
-            far_target=False, events=None, **net):
+            far_target=False, events=None, second_engine=None, **net):
         tg, ss = _network(n_sens, n_tgt, start, **net)
         if far_target:
             # last target sits 60 deg east: visible to none/one of the sites -> visibility rows differ between targets
@@ -69,7 +69,13 @@ def _configs(tier):
         eng = scen.engine(1, tg, ss, decision=decision, dparams=dparams)
         if reward == "cost":
             eng["reward"] = {"name": "CostConstrainedReward", "metrics": cost_metrics, "parameters": {}}
-        cfg = scen.config(start, steps + 1, [eng], seed=3, events=events(start) if events else None)
+        engs = [eng]
+        if second_engine:
+            # a second tasking engine with its own sensor and target; engine 1's sensors can see its target too
+            tg2 = [scen.target_eci(10011, *scen.overhead_orbit(start, *SUBPOINTS[4]))]
+            ss2 = [scen.ground_sensor(20011, *SITES[3], kind="adv_radar", fov={"fov_shape": "conic", "cone_angle": 20.0}, slew_rate=3.0)]
+            engs.append(scen.engine(2, tg2, ss2, decision=second_engine))
+        cfg = scen.config(start, steps + 1, engs, seed=3, events=events(start) if events else None)
         for k, v in (cfg_over or {}).items():
             cfg[k].update(v)
         out[name] = (cfg, steps)
@@ -133,6 +139,9 @@ def _configs(tier):
     add("munkres_2x2_sensor_set_changes", 2, 2, "MunkresDecision", steps=3, events=_sensor_changes)
     add("munkres_1x2", 1, 2, "MunkresDecision")
     add("munkres_1x1", 1, 1, "MunkresDecision")
+    # two tasking engines side by side: each tasks only its own sensors against its own targets
+    add("two_engines_munkres", 2, 2, "MunkresDecision", second_engine="MunkresDecision")
+    add("two_engines_greedy_allvisible", 1, 2, "MyopicNaiveGreedyDecision", second_engine="AllVisibleDecision")
     if tier == "thorough":
         add("munkres_3x3", 3, 3, "MunkresDecision")
         add("munkres_4x4", 4, 4, "MunkresDecision")
@@ -183,6 +192,10 @@ def _per_step(sc, k, rec):
             "obs": [(o.sensor_id, o.target_id, float(o.julian_date)) for o in eng.observations],
             "miss": [(m.sensor_id, m.target_id, float(m.julian_date)) for m in eng.missed_observations],
         }
+    info["configured"] = None
+    if not sc.scenario_config.events:
+        info["configured"] = {int(e.unique_id): (sorted(int(x.id) for x in e.sensors), sorted(int(x.id) for x in e.targets))
+                              for e in sc.scenario_config.engines}
     info["sensor_state"] = {
         sid: (np.array(s.sensors.boresight, dtype=float).copy(), float(s.sensors.time_last_tasked))
         for sid, s in sc.sensor_agents.items()
@@ -217,6 +230,23 @@ def _per_step(sc, k, rec):
 def _check_invariants(res, cfg_name, code_label, rec, item):
     for info in rec.step_info:
         k = info["step"]
+        # (0) every engine holds exactly the sensors and targets configured for it (no events in this configuration),
+        #     and no sensor is tasked by two engines in one step
+        if info.get("configured"):
+            got = {eid: (sorted(e["sensors"]), sorted(e["targets"])) for eid, e in info["engines"].items()}
+            res.case("bookkeeping/engine_membership", {"config": cfg_name, "schedule": code_label, "step": k},
+                     got == info["configured"], nontrivial=len(got) > 1, key=f"{cfg_name}|{code_label}|{k}|membership",
+                     signature="C08/bookkeeping/engine_membership_differs_from_configuration",
+                     observed=got, expected=info["configured"], item=item)
+        tasked_by = {}
+        for eid, e in info["engines"].items():
+            for si, sid in enumerate(e["sensors"]):
+                if e["decision"][:, si].any():
+                    tasked_by.setdefault(sid, []).append(eid)
+        twice = {sid: v for sid, v in tasked_by.items() if len(v) > 1}
+        res.case("bookkeeping/sensor_tasked_by_one_engine", {"config": cfg_name, "schedule": code_label, "step": k},
+                 not twice, nontrivial=len(info["engines"]) > 1, key=f"{cfg_name}|{code_label}|{k}|one_engine",
+                 signature="C08/bookkeeping/sensor_tasked_by_two_engines", observed=twice, item=item)
         for eid, e in info["engines"].items():
             dec = e["decision"]
             # (1) every tasked pair is executed by exactly one job, which returns exactly one primary record for it
